@@ -43,6 +43,10 @@ WITNESSES = {   # 3.8-valid scripts for the listed known findings (re-confirmed 
     "K-astunparse-star-index": "m = {(1, 2, 3): 't'}\nb = [2, 3]\nprint(m[(1, *b)], m[(*b,)] if (*b,) in m else 0)\n",
     "K-fstring-nesting-depth3": "print(f'''{f\"{'a'}\"}''')\n",
     "K-fstring-field-backslash": "print(f\"\"\"{'''a\nb'''}\"\"\")\nprint(f\"\"\"{\"a'b\" + 'c\"d'}\"\"\")\n",
+    # the same finding through a Latin-1 letter (written \\xf6 by the project's unparser), also when the converter itself puts
+    # the literal into the field (a captured variable becomes a dictionary item)
+    "K-fstring-field-backslash/latin1": "d = {'gr\u00f6\u00dfe': 3}\nprint(f\"{d['gr\u00f6\u00dfe']}\")\n"
+                                        "def f(gr\u00f6\u00dfe):\n    def g():\n        return f'{gr\u00f6\u00dfe}'\n    return g()\nprint(f(4))\n",
 }
 
 # every syntactic slot x an assignment expression (3.8 accepts it bare only as a positional call argument), written with
@@ -123,7 +127,8 @@ def fstring_depth(src):
         if isinstance(n, ast.Constant) and isinstance(n.value, (str, bytes)) and in_field:
             best = max(best, d + 1)
             s = n.value if isinstance(n.value, str) else n.value.decode("latin-1")
-            if any(ch in "'\"\\" or not ch.isprintable() for ch in s):
+            # the project's unparser writes every character below U+0100 that is not printable ASCII as an escape
+            if any(ch in "'\"\\" or not ch.isprintable() or 0x80 <= ord(ch) <= 0xFF for ch in s):
                 needs = True
         for ch in ast.iter_child_nodes(n):
             walk(ch, d, in_field)
